@@ -99,5 +99,11 @@ def handle (op : String) (a : Json) : Option R :=
       if T.length ≠ e.length ∨ peaks.any (fun p => p.length ≠ T.length) then throw "BadArg:rank"
       let out := extraction T e peaks (← getBool a "drop")
       pure (jList (out.map (fun (i, w) => Json.mkObj [("i", jNat i), ("w", jList (w.map jWin))])))
+  | "c11.dispatch" => some do
+      let fname ← getS a "fname"
+      let fmt ← optS a "fmt"
+      let side ← getStr a "side"
+      let r := if side == "write" then writeFmt fname fmt else if side == "readOld" then readFmtOld fname fmt else readFmt fname fmt
+      pure (Json.str (← liftE r).name)
   | _ => none
 end Drv.C11
